@@ -11,6 +11,10 @@ typedef BucketOne<C12IT, 1> C12One;
 template class BucketOpen2N2<C12IT, 3, true>;
 template class BucketLimP4<C12IT, 4, MemPoolParams<>, true>;
 template class BucketOne<C12IT, 1>;
+// the three pointer-state packings (32 / 48 / 64 useful pointer bits -> hashCount 8 / 6 / 4)
+template class BucketLimP4PtrState<uint64_t, 3, 32>;
+template class BucketLimP4PtrState<uint64_t, 3, 48>;
+template class BucketLimP4PtrState<uint64_t, 3, 64>;
 struct C12Getter { size_t operator()() const { return 0; } };
 struct C12Creator { void operator()(uint64_t*) const {} };
 struct C12Replacer { void operator()(uint64_t&, uint64_t&) const {} };
